@@ -99,6 +99,9 @@ def compare(ctx: common.Ctx, prog: dict[str, Any], cfg: str, ref: dict[str, Any]
                 if not any(c["call"] == call["id"] for c in got["crashes"]):
                     ctx.inconc("compiled-call-missing")
                 continue
+            if call.get("stateful") and (ref["crashes"] or got["crashes"]):
+                ctx.inconc("stateful-call-after-process-restart")
+                continue
             ctx.count()
             compared += 1
             a, b = r["ev"], g["ev"]
